@@ -56,8 +56,48 @@
 (*   h '#'                 [ ] ,  flow indicators ('{' '}' cost the same)   *)
 (*   : '-'  indicators (need a following blank in block context)           *)
 (*   q single quote        a '&' anchor indicator     r '*' alias indicator *)
-(*   d '---' at column 0 (one symbol, charged 3); elsewhere a word char    *)
+(*   Q double quote        e backslash (an escape inside double quotes)    *)
+(*   x the 'x' of a \xXX escape (a word character everywhere else)         *)
+(*   k '?' key indicator (needs a following blank in block context)        *)
+(*   t '!' tag indicator; inside a tag also the end of the handle          *)
+(*   p '%': at column 0 a directive (names are word characters, so unknown *)
+(*     directives only), inside a tag a URI escape (two hex digits follow) *)
+(*   d '---', z '...' at column 0 (one symbol, charged 3); elsewhere word   *)
+(*   b '|' or '>' block scalar indicator (block context)                    *)
+(*   i an indentation digit in a block scalar header ('1'); c '+', and     *)
+(*     '-' there, the chomping indicator                                   *)
 (*   0 the NUL the reader appends at end of stream                         *)
+(*                                                                         *)
+(* Loops of the scanner and the action (pc value) that is ONE iteration of *)
+(* each (design_parts/C20.md lists them with their character classes; the  *)
+(* size-parameterised families of the binding are the CYCLES of this       *)
+(* finite transition system, see WorkPump.tla):                            *)
+(*   scan_to_next_token: spaces / comment / breaks     tonext, comment     *)
+(*   fetch_more_tokens dispatch, unwind_indent         fetch               *)
+(*   scan_plain run, scan_plain_spaces, its break loop plain, pspaces,     *)
+(*                                                     pbreaks             *)
+(*   scan_flow_scalar_non_spaces / _spaces / _breaks   quoted, qend,       *)
+(*     and the escapes of a double-quoted scalar       qspaces, qbreaks,   *)
+(*                                                     qesc, qhex          *)
+(*   scan_anchor name                                  anchor              *)
+(*   scan_block_scalar: indicators, ignored line (+    bhead, bignore,     *)
+(*     comment), indentation detection, breaks, the    bcomment, bindent,  *)
+(*     line loop, the line run                         bbreaks, bcheck,    *)
+(*                                                     bline               *)
+(*   scan_tag: the search for the handle, scan_tag_   tag0, tagrun        *)
+(*     handle, scan_tag_uri, scan_uri_escapes (each character is charged   *)
+(*     all three passes when it is first looked at)                        *)
+(*   scan_directive: name, rest of the line            dirname, dirskip    *)
+(*   check_token / get_token: need_more_tokens         idle                *)
+(*                                                                         *)
+(* Runs.  With str input (Stream = FALSE) an unbroken run may have ANY     *)
+(* length: once a run counter has reached MaxRun a further character of    *)
+(* the run is accounted as if it were forwarded at once (operator Absorb:  *)
+(* its share of the later prefix / forward / join is charged now, the run  *)
+(* counter stays), which is exact for everything the scanner looks at      *)
+(* outside the run (key age, column, index).  Only with Stream = TRUE,     *)
+(* where the buffer has to hold the whole run, runs longer than MaxRun are *)
+(* outside the bound (pc = "out").                                         *)
 (***************************************************************************)
 EXTENDS Integers, Sequences, FiniteSets, TLC
 
@@ -118,6 +158,7 @@ Last(s)  == s[Len(s)]
 Front(s) == SubSeq(s, 1, Len(s) - 1)
 Blank    == {"s", "n", "0"}
 FlowInd  == {",", "[", "]"}
+PlainStop == FlowInd \cup {"k"}              \* in flow context these end a plain run
 
 NoKey == [on |-> FALSE, tn |-> 0, dist |-> 0, same |-> FALSE, req |-> FALSE, col |-> 0]
 Levels == 0 .. MaxFlow
@@ -171,6 +212,13 @@ Forward(r, l) ==                               \* forward(l): l iterations; inde
       ncol == IF brk THEN Min2(MaxCol, l - lastb) ELSE Min2(MaxCol, r.col + l)
   IN  Charge(Call([r1 EXCEPT !.ptr = IF Stream THEN @ + l ELSE 0, !.fw = @ + l, !.col = ncol, !.la = SubSeq(@, l + 1, Len(@)),
                              !.keys = [lv \in Levels |-> AdvKey(@[lv], l, brk)]]), "reader", l)
+
+\* A run counter (rl / sl) is at MaxRun and the character at offset i (1-based) belongs to the run too.
+Absorb(r, i) ==
+  Charge(Charge([r EXCEPT !.la = SubSeq(@, 1, i - 1) \o SubSeq(@, i + 1, Len(@)), !.fw = @ + 1,
+                         !.col = Min2(MaxCol, @ + 1),
+                         !.keys = [lv \in Levels |-> AdvKey(@[lv], 1, FALSE)]], "reader", 2), "build", 1)
+RunFull(r, i) == IF Stream THEN Out(r) ELSE Absorb(r, i)
 
 (***************************************************************************)
 (* scanner.py: simple keys, indentation, token queue                       *)
@@ -305,32 +353,59 @@ FetchValue(r) ==
            r2 == RemoveKey([r1 EXCEPT !.allow = (r.flow = 0)])
        IN  IF ~Ok(r2) THEN r2 ELSE TokenDone(Forward(r2, 1))
 
+FetchKey(r) ==                                 \* fetch_key: '?'
+  IF r.flow = 0 /\ ~r.allow THEN Err(r)        \* "mapping keys are not allowed here"
+  ELSE LET r1 == IF r.flow = 0 /\ Added(r, r.col) THEN AppendTok(AddIndent(r, r.col)) ELSE r
+           r2 == RemoveKey([r1 EXCEPT !.allow = (r.flow = 0)])
+       IN  IF ~Ok(r2) THEN r2 ELSE TokenDone(Forward(r2, 1))
+
 FetchAnchor(r) ==
   LET r1 == SaveKey(r) IN IF ~Ok(r1) THEN r1 ELSE StartScalar(Forward([r1 EXCEPT !.allow = FALSE, !.isal = FALSE], 1), "anchor")
 FetchAlias(r) ==                               \* same scanner path: scan_anchor(AliasToken)
   LET r1 == SaveKey(r) IN IF ~Ok(r1) THEN r1 ELSE StartScalar(Forward([r1 EXCEPT !.allow = FALSE, !.isal = TRUE], 1), "anchor")
-FetchQuoted(r) ==
-  LET r1 == SaveKey(r) IN IF ~Ok(r1) THEN r1 ELSE StartScalar(Forward(Peek([r1 EXCEPT !.allow = FALSE], 0), 1), "quoted")
+FetchQuoted(r, double) ==
+  LET r1 == SaveKey(r) IN IF ~Ok(r1) THEN r1
+                          ELSE StartScalar(Forward(Peek([r1 EXCEPT !.allow = FALSE, !.dq = double], 0), 1), "quoted")
 FetchPlain(r) ==
   LET r1 == SaveKey(r) IN IF ~Ok(r1) THEN r1 ELSE StartScalar(Call([r1 EXCEPT !.allow = FALSE]), "plain")
+
+FetchTag(r) ==                                 \* fetch_tag; scan_tag: get_mark, peek(1)
+  LET r1 == SaveKey(r) IN IF ~Ok(r1) THEN r1
+                          ELSE [Goto(Charge([r1 EXCEPT !.allow = FALSE], "call", 2), "tag0") EXCEPT !.rl = 0, !.sl = 0, !.th = 0]
+
+FetchDirective(r) ==                           \* fetch_directive; scan_directive: get_mark, forward
+  LET r1 == RemoveKey(Unwind(r, -1))
+  IN  IF ~Ok(r1) THEN r1
+      ELSE [Goto(Forward(Charge([r1 EXCEPT !.allow = FALSE], "call", 3), 1), "dirname") EXCEPT !.rl = 0]
+
+MinIndent(r) == IF r.indent + 1 < 1 THEN 1 ELSE r.indent + 1
+FetchBlock(r) ==                               \* fetch_block_scalar; scan_block_scalar: get_mark, forward
+  IF r.flow > 0 THEN Err(r)                    \* '|' starts no token in flow context
+  ELSE LET r1 == RemoveKey([r EXCEPT !.allow = TRUE])
+       IN  IF ~Ok(r1) THEN r1
+           ELSE [Goto(Forward(Charge(r1, "call", 2), 1), "bhead") EXCEPT !.bh = 0, !.bi = 0, !.rl = 0, !.sl = 0, !.vlen = 0]
 
 Fetch(r0) ==
   LET r1 == StaleKeys(r0) IN
   IF ~Ok(r1) THEN r1
   ELSE LET r == Peek(Unwind(r1, r1.col), 0)
            c == At(r, 1)
-           nb == IF c \in {":", "-"} THEN At(r, 2) \in Blank ELSE FALSE
+           nb == IF c \in {":", "-", "k"} THEN At(r, 2) \in Blank ELSE FALSE
        IN  CASE c = "0" -> FetchStreamEnd(r)
-             [] c = "d" /\ r.col = 0 -> FetchDocumentStart(r)
+             [] c \in {"d", "z"} /\ r.col = 0 -> FetchDocumentStart(r)          \* fetch_document_indicator for both
              [] c = "[" -> FetchFlowStart(Call(r))
              [] c = "]" -> FetchFlowEnd(Call(r))
              [] c = "," -> FetchFlowEntry(Call(r))
              [] c = "-" /\ nb -> FetchBlockEntry(Peek(r, 1))
+             [] c = "k" /\ (r.flow > 0 \/ nb) -> FetchKey(IF r.flow > 0 THEN Call(r) ELSE Peek(r, 1))
              [] c = ":" /\ (r.flow > 0 \/ nb) -> FetchValue(IF r.flow > 0 THEN Call(r) ELSE Peek(r, 1))
+             [] c = "p" -> IF r.col = 0 THEN FetchDirective(Call(r)) ELSE Err(r)     \* '%' starts no other token
+             [] c = "t" -> FetchTag(Call(r))
+             [] c = "b" -> FetchBlock(Call(r))
              [] c = "a" -> FetchAnchor(Call(r))
              [] c = "r" -> FetchAlias(Call(r))
-             [] c = "q" -> FetchQuoted(Call(r))
-             [] OTHER   -> FetchPlain(IF c \in {":", "-"} THEN Peek(Peek(r, 0), 1) ELSE Peek(r, 0))   \* check_plain
+             [] c \in {"q", "Q"} -> FetchQuoted(Call(r), c = "Q")
+             [] OTHER   -> FetchPlain(IF c \in {":", "-", "k"} THEN Peek(Peek(r, 0), 1) ELSE Peek(r, 0))   \* check_plain
 
 (***************************************************************************)
 (* string building: chunks.append(...) and the final join                  *)
@@ -349,7 +424,7 @@ ScalarDone(r) == TokenDone(Charge(r, "call", 2))         \* join, ScalarToken(..
 PlainEnds(r, i) ==                             \* does the character at run offset i end the run?
   LET c == At(r, i) IN
   \/ c \in Blank
-  \/ r.flow > 0 /\ c \in FlowInd
+  \/ r.flow > 0 /\ c \in PlainStop
   \/ c = ":" /\ (At(r, i + 1) \in Blank \/ (r.flow > 0 /\ At(r, i + 1) \in FlowInd))
 
 ScanPlain(r) ==
@@ -357,14 +432,14 @@ ScanPlain(r) ==
       c == At(r, i)
       pk == IF c = ":" THEN Peek(Peek(r, i - 1), i) ELSE Peek(r, i - 1)
   IN  IF r.rl = 0 /\ c = "h" THEN ScalarDone(Peek(r, 0))                         \* a comment ends the scalar
-      ELSE IF ~PlainEnds(r, i) THEN (IF r.rl = MaxRun THEN Out(r) ELSE [pk EXCEPT !.rl = @ + 1, !.la[i] = "w"])
+      ELSE IF ~PlainEnds(r, i) THEN (IF r.rl = MaxRun THEN RunFull(pk, i) ELSE [pk EXCEPT !.rl = @ + 1, !.la[i] = "w"])
       ELSE IF r.rl = 0 THEN ScalarDone(pk)                                          \* length == 0: break
       ELSE \* chunks.extend(spaces); chunks.append(prefix(length)); forward(length); get_mark
            [Goto(Call(Forward(Chunk(Prefix(pk, r.rl), r.rl), r.rl)), "pspaces") EXCEPT !.rl = 0, !.sl = 0, !.allow = FALSE]
 
 ScanPlainSpaces(r) ==
   LET c == At(r, r.sl + 1) IN
-  IF c = "s" THEN (IF r.sl = MaxRun THEN Out(r) ELSE [Peek(r, r.sl) EXCEPT !.sl = @ + 1])
+  IF c = "s" THEN (IF r.sl = MaxRun THEN RunFull(Peek(r, r.sl), r.sl + 1) ELSE [Peek(r, r.sl) EXCEPT !.sl = @ + 1])
   ELSE LET r1 == Peek(Forward(Prefix(Peek(r, r.sl), r.sl), r.sl), 0) IN
        IF c = "n"
        THEN \* scan_line_break, allow_simple_key = True, prefix(3) test for a document separator
@@ -377,7 +452,7 @@ ScanPlainBreaks(r) ==                          \* the `while self.peek() in ' \r
   CASE c = "s" -> Forward(Peek(r, 0), 1)
     [] c = "n" -> Prefix(LineBreak(Chunk(Peek(r, 0), 1)), 3)
     [] OTHER   -> LET r1 == Chunk(Charge(Peek(r, 0), "call", 1), 1)                  \* ' ' or the breaks
-                  IN  IF (c = "d" /\ r.col = 0) \/ c = "h" \/ c = "0" \/ (r.flow = 0 /\ r.col < r.indent + 1)
+                  IN  IF (c \in {"d", "z"} /\ r.col = 0) \/ c = "h" \/ c = "0" \/ (r.flow = 0 /\ r.col < r.indent + 1)
                       THEN ScalarDone(r1)
                       ELSE Goto(r1, "plain")
 
@@ -386,30 +461,45 @@ ScanPlainBreaks(r) ==                          \* the `while self.peek() in ' \r
 (***************************************************************************)
 ScanQuoted(r) ==                               \* scan_flow_scalar_non_spaces: the length loop
   LET c == At(r, r.rl + 1) IN
-  IF c \notin {"q", "s", "n", "0"} THEN (IF r.rl = MaxRun THEN Out(r) ELSE [Peek(r, r.rl) EXCEPT !.rl = @ + 1, !.la[r.rl + 1] = "w"])
+  IF c \notin {"q", "Q", "e", "s", "n", "0"} THEN (IF r.rl = MaxRun THEN RunFull(Peek(r, r.rl), r.rl + 1)
+                                          ELSE [Peek(r, r.rl) EXCEPT !.rl = @ + 1, !.la[r.rl + 1] = "w"])
   ELSE LET r1 == Peek(r, r.rl)
            r2 == IF r.rl > 0 THEN Forward(Chunk(Prefix(r1, r.rl), r.rl), r.rl) ELSE r1
        IN  [Goto(r2, "qend") EXCEPT !.rl = 0]
 
 ScanQuotedEnd(r) ==
   LET c == At(r, 1) IN
-  CASE c = "q" -> IF At(r, 2) = "q" THEN Goto(Forward(Chunk(Peek(Peek(r, 0), 1), 1), 2), "quoted")      \* ''
-                  ELSE ScalarDone(Forward(Peek(Peek(Peek(r, 0), 1), 0), 1))                              \* closing quote
+  CASE c = "q" /\ ~r.dq -> IF At(r, 2) = "q" THEN Goto(Forward(Chunk(Peek(Peek(r, 0), 1), 1), 2), "quoted")      \* ''
+                           ELSE ScalarDone(Forward(Peek(Peek(Peek(r, 0), 1), 0), 1))                              \* closing quote
+    [] c = "Q" /\ r.dq  -> ScalarDone(Forward(Peek(Peek(Peek(r, 0), 0), 0), 1))                                  \* closing quote
+    [] c = "e" /\ r.dq  -> Goto(Forward(Peek(Peek(r, 0), 0), 1), "qesc")                                         \* an escape
+    [] c \in {"q", "Q", "e"} -> Goto(Forward(Chunk(Peek(r, 0), 1), 1), "quoted")        \* the other quote / a backslash: one character
     [] c = "0" -> Err(Peek(r, 0))                                                    \* unexpected end of stream
     [] OTHER   -> [Goto(Charge(Peek(r, 0), "call", 2), "qspaces") EXCEPT !.sl = 0]
 
 ScanQuotedSpaces(r) ==
   LET c == At(r, r.sl + 1) IN
-  IF c = "s" THEN (IF r.sl = MaxRun THEN Out(r) ELSE [Peek(r, r.sl) EXCEPT !.sl = @ + 1])
+  IF c = "s" THEN (IF r.sl = MaxRun THEN RunFull(Peek(r, r.sl), r.sl + 1) ELSE [Peek(r, r.sl) EXCEPT !.sl = @ + 1])
   ELSE LET r1 == Peek(Forward(Prefix(Peek(r, r.sl), r.sl), r.sl), 0) IN
        CASE c = "0" -> Err(r1)
          [] c = "n" -> [Goto(Chunk(LineBreak(r1), 1), "qbreaks") EXCEPT !.sl = 0]
          [] OTHER   -> [Goto(Chunk(r1, r.sl), "quoted") EXCEPT !.sl = 0]
 
+ScanQuotedEsc(r) ==                            \* after the backslash of a double-quoted scalar
+  LET c == At(r, 1) IN
+  CASE c = "x" -> Goto(Forward(Peek(r, 0), 1), "qhex")                               \* ESCAPE_CODES: digits follow
+    [] c = "n" -> [Goto(Chunk(LineBreak(Peek(r, 0)), 1), "qbreaks") EXCEPT !.sl = 0]  \* escaped line break
+    [] c \in {"w", "s", "e", "Q"} -> Goto(Forward(Chunk(Peek(r, 0), 1), 1), "quoted")    \* ESCAPE_REPLACEMENTS
+    [] OTHER   -> Err(Peek(r, 0))                                                    \* unknown escape character
+
+ScanQuotedHex(r) ==                            \* \xXX: peek(k) for each digit, prefix, forward
+  IF At(r, 1) = "w" /\ At(r, 2) = "w" THEN Goto(Forward(Chunk(Prefix(Peek(Peek(r, 0), 1), 2), 1), 2), "quoted")
+  ELSE Err(Peek(r, 0))
+
 ScanQuotedBreaks(r) ==                         \* scan_flow_scalar_breaks
   LET c == At(r, 1)
       r1 == Peek(Prefix(r, 3), 0) IN
-  CASE c = "d" /\ r.col = 0 -> Err(r1)                                                \* document separator
+  CASE c \in {"d", "z"} /\ r.col = 0 -> Err(r1)                                      \* document separator
     [] c = "s" -> Forward(r1, 1)
     [] c = "n" -> Chunk(LineBreak(r1), 1)
     [] OTHER   -> Goto(r1, "quoted")
@@ -419,8 +509,8 @@ ScanQuotedBreaks(r) ==                         \* scan_flow_scalar_breaks
 (***************************************************************************)
 ScanAnchor(r) ==
   LET c == At(r, r.rl + 1) IN
-  IF c = "w" THEN (IF r.rl = MaxRun THEN Out(r) ELSE [Peek(r, r.rl) EXCEPT !.rl = @ + 1])
-  ELSE IF r.rl = 0 \/ c \notin (Blank \cup {":", ",", "]"}) THEN Err(Peek(r, r.rl))
+  IF c = "w" THEN (IF r.rl = MaxRun THEN RunFull(Peek(r, r.rl), r.rl + 1) ELSE [Peek(r, r.rl) EXCEPT !.rl = @ + 1])
+  ELSE IF r.rl = 0 \/ c \notin (Blank \cup {":", ",", "]", "k"}) THEN Err(Peek(r, r.rl))
   ELSE LET r1 == Peek(Forward(Prefix(Peek(r, r.rl), r.rl), r.rl), 0)
            \* composer: `anchor in self.anchors`, self.anchors[anchor] = node - a dict; the variant scans a list
            look == IF Variant = "anchorlist" THEN 1 + r.nanch ELSE 1
@@ -433,27 +523,133 @@ ScanAnchor(r) ==
                 IN  IF Variant = "aliaswalk" THEN [r2 EXCEPT !.atrack = TRUE, !.aflow = r2.flow, !.acnt = 0] ELSE r2
 
 (***************************************************************************)
+(* scan_tag (handle search, scan_tag_handle, scan_tag_uri, scan_uri_       *)
+(* escapes).  The code passes over the characters of a tag up to three     *)
+(* times before it forwards; here a character is charged all passes and    *)
+(* its share of prefix / forward / join when it is first looked at and is  *)
+(* accounted as forwarded at once (exact outside the tag, like Absorb).    *)
+(*   th: 0 only handle characters so far, 1 no handle possible any more,   *)
+(*       2 handle complete and suffix empty, 3 suffix not empty            *)
+(*   sl: hex digits still owed to a '%' escape                             *)
+(***************************************************************************)
+TagChar(r) == IF Stream /\ r.rl = MaxRun THEN Out(r)
+              ELSE [Forward(Charge(Charge(Charge(Peek(r, 0), "call", 2), "reader", 1), "build", 1), 1) EXCEPT !.rl = IF Stream THEN @ + 1 ELSE 0]
+UriPunct == {":", ",", "k", "[", "]", "a", "r", "q"}
+
+ScanTag0(r) ==                                 \* '!' and its successor
+  IF At(r, 2) \in Blank THEN TokenDone(Charge(Forward(Peek(r, 1), 1), "call", 3))                   \* the tag '!'
+  ELSE Goto(Forward(Peek(r, 1), 1), "tagrun")
+
+ScanTagRun(r) ==
+  LET c == At(r, 1) IN
+  IF r.sl > 0 THEN (IF c = "w" THEN [TagChar(r) EXCEPT !.sl = @ - 1] ELSE Err(Peek(r, 0)))         \* "expected URI escape sequence"
+  ELSE CASE c \in {"w", "-"} -> [TagChar(r) EXCEPT !.th = IF @ = 2 THEN 3 ELSE @]
+         [] c = "t" -> IF r.th = 0 THEN [Charge(TagChar(r), "call", 3) EXCEPT !.th = 2]                 \* end of the handle
+                       ELSE IF r.th = 1 THEN Err(Peek(r, 0))                                            \* scan_tag_handle: "expected '!'"
+                       ELSE [TagChar(r) EXCEPT !.th = 3]                                                \* a URI character of the suffix
+         [] c = "p" -> [Charge(TagChar(r), "call", 8) EXCEPT !.sl = 2, !.th = IF @ < 2 THEN 1 ELSE 3]    \* scan_uri_escapes
+         [] c \in UriPunct -> [TagChar(r) EXCEPT !.th = IF @ < 2 THEN 1 ELSE 3]
+         [] c \in Blank -> IF r.th = 2 THEN Err(Peek(r, 0))                                             \* "expected URI"
+                           ELSE [TokenDone(Charge(Peek(r, 0), "call", 4)) EXCEPT !.rl = 0]
+         [] OTHER -> Err(Peek(r, 0))                                                                   \* "expected ' '"
+
+(***************************************************************************)
+(* scan_directive (unknown names): name, the rest of the line, line break  *)
+(***************************************************************************)
+ScanDirName(r) ==
+  LET c == At(r, r.rl + 1) IN
+  IF c = "w" THEN (IF r.rl = MaxRun THEN RunFull(Peek(r, r.rl), r.rl + 1) ELSE [Peek(r, r.rl) EXCEPT !.rl = @ + 1])
+  ELSE IF r.rl = 0 \/ c \notin Blank THEN Err(Peek(r, r.rl))                        \* "expected alphabetic or numeric character"
+  ELSE [Goto(Charge(Peek(Forward(Prefix(Peek(r, r.rl), r.rl), r.rl), 0), "call", 2), "dirskip") EXCEPT !.rl = 0]
+
+ScanDirSkip(r) ==                              \* `while self.peek() not in breaks: self.forward()`, ignored line, line break
+  LET c == At(r, 1) IN
+  CASE c = "n" -> TokenDone(LineBreak(Charge(Peek(r, 0), "call", 5)))
+    [] c = "0" -> TokenDone(Charge(Peek(r, 0), "call", 5))
+    [] OTHER   -> Forward(Peek(r, 0), 1)
+
+(***************************************************************************)
+(* scan_block_scalar                                                       *)
+(*   bh: header indicators seen (1 = chomping, 2 = indentation digit),     *)
+(*   bi: the scalar's indentation (0 = to be detected), sl = max_indent of *)
+(*   scan_block_scalar_indentation, rl = the run inside one line           *)
+(***************************************************************************)
+BlockHead(r) ==                                \* scan_block_scalar_indicators, one indicator per action
+  LET c  == At(r, 1)
+      r1 == Peek(r, 0) IN
+  CASE c \in {"-", "c"} /\ r.bh \in {0, 2} -> [Forward(r1, 1) EXCEPT !.bh = r.bh + 1]
+    [] c = "i" /\ r.bh \in {0, 1} -> [Forward(r1, 1) EXCEPT !.bh = r.bh + 2, !.bi = MinIndent(r)]      \* increment 1
+    [] c \in Blank -> Goto(r1, "bignore")
+    [] OTHER -> Err(r1)                         \* "expected chomping or indentation indicators"
+
+AfterHeader(r) == IF r.bi > 0 THEN Goto(r, "bbreaks") ELSE [Goto(r, "bindent") EXCEPT !.sl = 0]
+
+BlockIgnore(r) ==                              \* scan_block_scalar_ignored_line
+  LET c == At(r, 1) IN
+  CASE c = "s" -> Forward(Peek(r, 0), 1)
+    [] c = "h" -> Goto(Charge(Peek(r, 0), "call", 1), "bcomment")
+    [] c = "n" -> AfterHeader(LineBreak(Charge(Peek(r, 0), "call", 3)))
+    [] c = "0" -> AfterHeader(Charge(Peek(r, 0), "call", 4))
+    [] OTHER   -> Err(Peek(r, 0))               \* "expected a comment or a line break"
+
+BlockComment(r) ==
+  IF At(r, 1) \in {"n", "0"} THEN Goto(Peek(r, 0), "bignore") ELSE Forward(Peek(r, 0), 1)
+
+BlockIndent(r) ==                              \* scan_block_scalar_indentation: one character per iteration
+  LET c == At(r, 1) IN
+  CASE c = "s" -> IF r.col + 1 >= MaxCol THEN Out(r)               \* bound: leading blank lines shorter than MaxCol
+                  ELSE LET r1 == Forward(Peek(Peek(r, 0), 0), 1) IN [r1 EXCEPT !.sl = IF r1.col > @ THEN r1.col ELSE @]
+    [] c = "n" -> Chunk(LineBreak(Charge(Peek(Peek(r, 0), 0), "call", 1)), 1)
+    [] OTHER   -> [Goto(Peek(r, 0), "bcheck") EXCEPT !.bi = IF MinIndent(r) > r.sl THEN MinIndent(r) ELSE r.sl, !.sl = 0]
+
+BlockBreaks(r) ==                              \* scan_block_scalar_breaks(indent)
+  LET c == At(r, 1) IN
+  CASE c = "s" /\ r.col < r.bi -> Forward(Peek(r, 0), 1)
+    [] c = "n" -> Chunk(LineBreak(Charge(Peek(Peek(r, 0), 0), "call", 1)), 1)
+    [] OTHER   -> Goto(Peek(Peek(r, 0), 0), "bcheck")
+
+BlockCheck(r) ==                               \* `while self.column == indent and self.peek() != NUL`, folding peeks
+  IF r.col = r.bi /\ At(r, 1) # "0"
+  THEN [Goto(Chunk(Charge(Peek(Peek(Peek(r, 0), 0), 0), "call", 2), 1), "bline") EXCEPT !.rl = 0]
+  ELSE ScalarDone(Charge(Peek(r, 0), "build", 2))                  \* chomping: line_break, breaks
+
+BlockLine(r) ==                                \* the length loop of one line, prefix, forward, scan_line_break
+  LET c == At(r, r.rl + 1) IN
+  IF c \notin {"n", "0"} THEN (IF r.rl = MaxRun THEN RunFull(Peek(r, r.rl), r.rl + 1)
+                                ELSE [Peek(r, r.rl) EXCEPT !.rl = @ + 1, !.la[r.rl + 1] = "w"])
+  ELSE LET r1 == Forward(Chunk(Prefix(Peek(r, r.rl), r.rl), r.rl), r.rl)
+           r2 == IF c = "n" THEN LineBreak(r1) ELSE Peek(r1, 0)
+       IN  [Goto(Charge(r2, "call", 1), "bbreaks") EXCEPT !.rl = 0]
+
+(***************************************************************************)
 (* the machine                                                             *)
 (***************************************************************************)
 la == m.la
 Want ==                                        \* how many characters from the pointer the next action looks at
-  CASE m.pc \in {"tonext", "comment", "pbreaks", "qbreaks"} -> 1
-    [] m.pc = "fetch"   -> IF Len(la) >= 1 /\ la[1] \in {":", "-"} THEN 2 ELSE 1
+  CASE m.pc \in {"tonext", "comment", "pbreaks", "qbreaks", "bhead", "bignore", "bcomment", "bindent", "bbreaks", "bcheck", "qesc", "tagrun", "dirskip"} -> 1
+    [] m.pc = "fetch"   -> IF Len(la) >= 1 /\ la[1] \in {":", "-", "k"} THEN 2 ELSE 1
+    [] m.pc \in {"qhex", "tag0"} -> 2
     [] m.pc = "plain"   -> IF Len(la) >= m.rl + 1 /\ la[m.rl + 1] = ":" THEN m.rl + 2 ELSE m.rl + 1
     [] m.pc \in {"pspaces", "qspaces"} -> m.sl + 1
-    [] m.pc \in {"quoted", "anchor"}   -> m.rl + 1
-    [] m.pc = "qend"    -> IF Len(la) >= 1 /\ la[1] = "q" THEN 2 ELSE 1
+    [] m.pc \in {"quoted", "anchor", "bline", "dirname"} -> m.rl + 1
+    [] m.pc = "qend"    -> IF Len(la) >= 1 /\ la[1] = "q" /\ ~m.dq THEN 2 ELSE 1
     [] OTHER -> 0
 
 \* Characters that the waiting action treats alike AND forwards without looking at them again are one class:
 \* inside a comment everything but a break, inside quotes everything but quote / space / break, inside a plain run
 \* everything that cannot end it (the flow indicators can, in flow context; ':' can, depending on its successor).
 Classes ==
-  CASE m.pc = "comment" -> {"w", "n"}
-    [] m.pc \in {"quoted", "qspaces"} -> {"w", "q", "s", "n"}
+  CASE m.pc \in {"comment", "bcomment", "bline", "dirskip"} -> {"w", "n"}
+    [] m.pc = "dirname" -> {"w", "s", "n", ":"}
+    [] m.pc \in {"tag0", "tagrun"} -> Sym \ {"d", "z", "i", "c", "x"}
+    [] m.pc = "bhead"   -> {"-", "c", "i", "s", "h", "n", "w"}
+    [] m.pc = "bignore" -> {"s", "h", "n", "w"}
+    [] m.pc \in {"quoted", "qspaces"} -> {"w", "q", "Q", "e", "s", "n"}
+    [] m.pc = "qesc" -> {"w", "s", "e", "Q", "x", "n", "q"}
+    [] m.pc = "qhex" -> {"w", "s"}
     [] m.pc = "plain" /\ Len(la) = m.rl ->
-         {"w", "s", "n", ":"} \cup (IF m.flow > 0 THEN FlowInd ELSE {}) \cup (IF m.rl = 0 THEN {"h"} ELSE {})
-    [] OTHER -> Sym
+         {"w", "s", "n", ":"} \cup (IF m.flow > 0 THEN PlainStop ELSE {}) \cup (IF m.rl = 0 THEN {"h"} ELSE {})
+    [] OTHER -> Sym \ {"i", "c", "x"}         \* a digit / '+' / 'x' is a word character everywhere else
 
 Choose ==                                      \* the environment fixes one more character, only when it is looked at
   /\ m.pc \notin Terminal /\ Want > Len(la) /\ (IF la = <<>> THEN TRUE ELSE Last(la) # "0")
@@ -484,18 +680,33 @@ AQuotedEnd   == Ready("qend")    /\ Commit(ScanQuotedEnd(Fresh))
 AQuotedSpaces == Ready("qspaces") /\ Commit(ScanQuotedSpaces(Fresh))
 AQuotedBreaks == Ready("qbreaks") /\ Commit(ScanQuotedBreaks(Fresh))
 AAnchor      == Ready("anchor")  /\ Commit(ScanAnchor(Fresh))
+ATag0        == Ready("tag0")    /\ Commit(ScanTag0(Fresh))
+ATagRun      == Ready("tagrun")  /\ Commit(ScanTagRun(Fresh))
+ADirName     == Ready("dirname") /\ Commit(ScanDirName(Fresh))
+ADirSkip     == Ready("dirskip") /\ Commit(ScanDirSkip(Fresh))
+AQuotedEsc   == Ready("qesc")    /\ Commit(ScanQuotedEsc(Fresh))
+AQuotedHex   == Ready("qhex")    /\ Commit(ScanQuotedHex(Fresh))
+ABlockHead   == Ready("bhead")   /\ Commit(BlockHead(Fresh))
+ABlockIgnore == Ready("bignore") /\ Commit(BlockIgnore(Fresh))
+ABlockComment == Ready("bcomment") /\ Commit(BlockComment(Fresh))
+ABlockIndent == Ready("bindent") /\ Commit(BlockIndent(Fresh))
+ABlockBreaks == Ready("bbreaks") /\ Commit(BlockBreaks(Fresh))
+ABlockCheck  == Ready("bcheck")  /\ Commit(BlockCheck(Fresh))
+ABlockLine   == Ready("bline")   /\ Commit(BlockLine(Fresh))
 
 Init ==
   /\ m = [pc |-> "idle", blen |-> 0, ptr |-> 0, eof |-> ~Stream, pre |-> Stream, col |-> 0,
           qlen |-> 1,                           \* STREAM-START is queued by Scanner.__init__
           done |-> FALSE, flow |-> 0, indent |-> -1, indents |-> <<>>, allow |-> TRUE,
           keys |-> [lv \in Levels |-> NoKey], rl |-> 0, sl |-> 0, vlen |-> 0, nanch |-> 0, c |-> Z, fw |-> 0,
-          isal |-> FALSE, atrack |-> FALSE, aflow |-> 0, acnt |-> 0, asz |-> 0,
+          isal |-> FALSE, atrack |-> FALSE, aflow |-> 0, acnt |-> 0, asz |-> 0, bh |-> 0, bi |-> 0, dq |-> FALSE, th |-> 0,
           la |-> <<>>, ok |-> TRUE]
   /\ fuel = FuelCap /\ work = Z /\ consumed = 0
 
 Next == \/ Choose \/ APull \/ AToNext \/ AComment \/ AFetch \/ APlain \/ APlainSpaces \/ APlainBreaks
         \/ AQuoted \/ AQuotedEnd \/ AQuotedSpaces \/ AQuotedBreaks \/ AAnchor
+        \/ AQuotedEsc \/ AQuotedHex \/ ATag0 \/ ATagRun \/ ADirName \/ ADirSkip
+        \/ ABlockHead \/ ABlockIgnore \/ ABlockComment \/ ABlockIndent \/ ABlockBreaks \/ ABlockCheck \/ ABlockLine
 Spec == Init /\ [][Next]_vars
 
 (***************************************************************************)
